@@ -1,5 +1,8 @@
 """C19 — built-in generators build the documented topologies (DESIGN.md 6.17).
 
+Series pairs are all ordered pairs of distinct signal-valued unit ports of ONE width, one bit or a bus (fixes/C19W-1);
+pairs of different widths are among the calls on which nothing can be built (stream malformed).
+
 Every case is one call of hdl21.generators.Series / MosStack / Wrapper on an abstractly described unit cell.  The
 implementation driver (harness/impl/c19.py) makes the call and exports the result; Coq (Corr/C19.v:chk_c19) reads the
 exported package as the netlisters do, and compares (1) its ports, unit instances and net partition with the
@@ -34,6 +37,10 @@ EXT_UNITS = [
     ext("Eunits", [["units", 1], ["i", 1], ["i_", 1]]),       # ... and like its instance array
     ext("Einner", [["inner", 1], ["p", 1], ["w", 2]]),
     ext("Eelem", [["a", 1], ["units_0", 1], ["units_1", 1]]),  # ports called like the flattened array elements
+    # bus-valued series ports (fixes/C19W-1): pairs of equally wide buses next to one-bit and differently wide ports
+    ext("E2w", [["a", 2], ["b", 2], ["c", 1]]),
+    ext("E3w", [["x", 3], ["k", 1], ["y", 3], ["z", 3]]),
+    ext("Eiw", [["i", 2], ["units", 2], ["p", 4]]),             # wide ports called like the internal names of Series
 ]
 MOD_UNITS = [
     mod("Ubus", [["x", 1, "in"], ["y", 1, "out"], ["z", 2, "inout"], ["w", 1, "none"]]),
@@ -41,6 +48,7 @@ MOD_UNITS = [
     mod("Ubun2", [["s0", 1, "inout"], ["s1", 1, "inout"], ["v", 3, "in"]], [["b0", [["m", 1]]], ["b1", [["m", 1], ["k", 1]]]]),
     mod("Ui", [["i", 1, "in"], ["units", 1, "out"]], [["i_", [["p", 1]]]]),
     mod("Uelem", [["units_0", 1, "in"], ["b", 1, "out"], ["units_1", 2, "inout"], ["units_2", 1, "none"]]),
+    mod("Uw", [["p", 2, "inout"], ["q", 2, "inout"], ["en", 1, "in"], ["v", 3, "in"]], [["b", [["m", 1], ["k", 2]]]]),
 ]
 MOS_UNITS = [
     None,                                                      # MosStack's default unit
@@ -48,6 +56,7 @@ MOS_UNITS = [
     ext("Emos", [["d", 1], ["g", 1], ["s", 1], ["b", 1]]),
     ext("Emos5", [["d", 1], ["g", 2], ["s", 1], ["b", 1]]),
     mod("Umos", [["d", 1, "inout"], ["g", 1, "in"], ["s", 1, "inout"]], [["sub", [["b", 1]]]]),
+    ext("Emosw", [["d", 2], ["g", 1], ["s", 2]]),              # drain and source are two-bit buses
 ]
 
 
@@ -117,18 +126,38 @@ def c_case(job, out, prims):
 
 # ------------------------------------------------------------------------------------------ case generation
 def series_jobs(units, prims, ns, modes, pre_modes=(False,)):
-    """n x unit x all ordered pairs of distinct one-bit signal-valued ports x the way the pair is given."""
+    """n x unit x all ordered pairs of distinct signal-valued ports of ONE width (one bit or a bus) x the way the pair is given."""
     jobs = []
     for u in units:
-        one = [n for n, w, _ in unit_sigs(u, prims) if w == 1]
-        pairs = [(a, b) for a in one for b in one if a != b]
+        sigs = [(n, w) for n, w, _ in unit_sigs(u, prims)]
+        pairs = [(a, b, wa) for a, wa in sigs for b, wb in sigs if a != b and wa == wb]
         for n in ns:
-            for a, b in pairs:
+            for a, b, w in pairs:
                 for mode in modes:
                     for pre in (pre_modes if u["kind"] == "mod" else (False,)):
-                        mk = lambda s: [mode, s] if mode != "fresh" else ["fresh", s, 1]
+                        mk = lambda s: [mode, s] if mode != "fresh" else ["fresh", s, w]
                         jobs.append(dict(gen="series", unit=u, conns=[mk(a), mk(b)], nser=n, pre=pre))
     return jobs
+
+
+def pair_width(j, prims):
+    """Width of the series pair of a Series / MosStack job when both ports are signal-valued ports of one width, else None."""
+    if j["gen"] == "wrapper":
+        return None
+    if j["gen"] == "mosstack":
+        a, b = "d", "s"
+    else:
+        c = j.get("conns") or [None, None]
+        a, b = conn_name(c[0]), conn_name(c[1])
+    ws = dict((n, w) for n, w, _ in unit_sigs(j["unit"], prims))
+    if a is None or b is None or a == b or a not in ws or b not in ws or ws[a] != ws[b]:
+        return None
+    return ws[a]
+
+
+def is_wide(j, prims):
+    w = pair_width(j, prims)
+    return w is not None and w >= 2 and isinstance(j.get("nser"), int) and j["nser"] >= 2
 
 
 def malformed_jobs(prims, ns):
@@ -147,13 +176,16 @@ def malformed_jobs(prims, ns):
         jobs.append(dict(gen="series", unit=MOD_UNITS[1], conns=[["name", "b_p"], ["name", "y"]], nser=n))
         jobs.append(dict(gen="series", unit=MOD_UNITS[1], conns=[["name", "b_p"], ["name", "y"]], nser=n, pre=True))
         jobs.append(dict(gen="series", unit=MOD_UNITS[1], conns=[["bundleport", "b"], ["name", "y"]], nser=n))
-        # series ports wider than one bit (by name, and by a Signal)
+        # series ports of DIFFERENT widths (by name, and by a Signal): nothing can be built
         jobs.append(dict(gen="series", unit=EXT_UNITS[1], conns=[["name", "a"], ["name", "c"]], nser=n))
         jobs.append(dict(gen="series", unit=EXT_UNITS[2], conns=[["port", "x"], ["name", "a"]], nser=n))
         jobs.append(dict(gen="series", unit=MOD_UNITS[0], conns=[["name", "z"], ["name", "x"]], nser=n))
-        # MosStack over units without a one-bit d / s
+        jobs.append(dict(gen="series", unit=EXT_UNITS[7], conns=[["name", "c"], ["name", "b"]], nser=n))
+        jobs.append(dict(gen="series", unit=EXT_UNITS[9], conns=[["name", "units"], ["name", "p"]], nser=n))
+        jobs.append(dict(gen="series", unit=MOD_UNITS[5], conns=[["port", "v"], ["port", "p"]], nser=n))
+        # MosStack over units without d / s, or with d and s of different widths
         jobs.append(dict(gen="mosstack", unit=r, nser=n))
-        jobs.append(dict(gen="mosstack", unit=ext("Emosw", [["d", 2], ["g", 1], ["s", 2]]), nser=n))
+        jobs.append(dict(gen="mosstack", unit=ext("Emosu", [["d", 2], ["g", 1], ["s", 1]]), nser=n))
     return jobs
 
 
@@ -176,6 +208,12 @@ def corpus_jobs():
         dict(gen="series", unit=EXT_UNITS[3], conns=[["name", "a"], ["name", "i"]], nser=3),
         dict(gen="series", unit=EXT_UNITS[4], conns=[["name", "units"], ["name", "i_"]], nser=2),
         dict(gen="series", unit=MOD_UNITS[3], conns=[["port", "i"], ["port", "units"]], nser=4),
+        # pinned tree: series ports wider than one bit - the private bus had n-1 bits whatever the width of the pair, so every
+        # such call was refused at elaboration (fixes/C19W-1)
+        dict(gen="series", unit=EXT_UNITS[7], conns=[["name", "a"], ["name", "b"]], nser=2),
+        dict(gen="series", unit=EXT_UNITS[8], conns=[["port", "y"], ["port", "x"]], nser=3),
+        dict(gen="series", unit=MOD_UNITS[5], conns=[["name", "q"], ["name", "p"]], nser=2),
+        dict(gen="mosstack", unit=MOS_UNITS[5], nser=2),
         # plain chains
         dict(gen="series", unit=dict(kind="prim", name="IdealResistor"), conns=[["name", "p"], ["name", "n"]], nser=3),
         dict(gen="mosstack", unit=None, nser=3),
@@ -277,7 +315,8 @@ def run(run, tier, seed, replay=None):
     if not quick:
         ej = [j for j in ej if j["nser"] <= 8 or r.random() < 0.35]
     streams.append(("series-ext-modules", ej, "non-trivial = nser >= 2; external modules and modules with bus and bundle ports, "
-                    "names colliding with Series' internal names, pairs by name / own port / unrelated Signal, unit fresh or already exported"))
+                    "names colliding with Series' internal names, every ordered pair of distinct signal-valued ports of one width (one bit "
+                    "and buses), pairs by name / own port / unrelated Signal, unit fresh or already exported"))
     mj = [dict(gen="mosstack", unit=u, nser=n, **({"pre": True} if pre else {})) for u in MOS_UNITS for n in ns + [None]
           for pre in ((False, True) if u is not None and u["kind"] == "mod" else (False,))]
     streams.append(("mosstack", mj, "non-trivial = nser >= 2"))
@@ -285,9 +324,11 @@ def run(run, tier, seed, replay=None):
           for pre in ((False, True) if u["kind"] == "mod" else (False,))]
     streams.append(("wrapper", wj, "non-trivial = every Wrapper call (distinct unit cells)"))
     streams.append(("malformed", malformed_jobs(prims, [1, 2, 3] if quick else [1, 2, 3, 7, 24]),
-                    "non-trivial = nser >= 2 (rejection demanded or, for wide series ports, rejection or the bitwise chain)"))
+                    "non-trivial = nser >= 2 (rejection demanded: nser < 1, a series port that is no signal-valued port of the unit, "
+                    "series ports of different widths)"))
 
     total = 0
+    wide_total = 0
     for name, jobs, rule in streams:
         outs, bad = evaluate(jobs, name, prims)
         rejected = sum(1 for o in outs if o["pkg"] is None)
@@ -295,11 +336,22 @@ def run(run, tier, seed, replay=None):
         if name.startswith("series"):
             extras["units"] = len({json.dumps(j["unit"], sort_keys=True) for j in jobs})
             extras["by_mode"] = {m: sum(1 for j in jobs if j["conns"][0][0] == m) for m in ("name", "port", "fresh")}
+        wide = [k for k, j in enumerate(jobs) if is_wide(j, prims)]
+        if wide:
+            extras["bus_valued_series_pairs"] = len({job_key(jobs[k]) for k in wide})
+            extras["bus_valued_series_pairs_accepted"] = sum(1 for k in wide if outs[k]["pkg"] is not None)
+            extras["bus_valued_pair_widths"] = sorted({pair_width(jobs[k], prims) for k in wide})
+        wide_total += len({job_key(jobs[k]) for k in wide})
         run.stream(name, len(jobs), len({job_key(j) for j in jobs if nontrivial(j)}), **extras)
         report(run, name, bad, jobs, outs)
         run.sample(dict(stream=name, case=jobs[len(jobs) // 2], impl_accepted=outs[len(jobs) // 2]["pkg"] is not None))
         total += len(jobs)
     run.coverage["traces_validated_against_impl"] = total
+    run.coverage["bus_valued_series_pairs"] = wide_total
+    need = 10
+    if wide_total < need:
+        run.violation("C19:coverage", f"only {wide_total} distinct calls with a bus-valued series pair and nser >= 2 were judged (target >= {need})",
+                      dict(kind="harness-coverage"), found_input=False)
     # C19E: the written design of the generated module (coq Model/C19EDesign.v) + the pipeline model against the implementation's package
     from . import c19e
     c19e.run_tie(run, tier, seed, streams, prims)
